@@ -4,6 +4,7 @@
 //     form 0 SLOT() string, 1 member pointer, 2 functor, 3 functor with context
 //   extra log: (30 (40 id)) slot invoked, followed by (7 avail)
 #include <QCoreApplication>
+#include <functional>
 #include <QPointer>
 #include <qhttpengine/qobjecthandler.h>
 #include <qhttpengine/socket.h>
@@ -17,6 +18,7 @@
 using namespace QHttpEngine;
 
 void runConnectionOn(Server *server, Val &log, const Val &ops);
+void runConnectionOnEach(Server *server, Val &log, const Val &ops, const std::function<void()> &afterOp);
 
 static Val runSlot(const Val &c, bool multi)
 {
@@ -24,12 +26,17 @@ static Val runSlot(const Val &c, bool multi)
     QObject scope;
     SlotReceiver recv(&log);
     QObjectHandler *h = new QObjectHandler(&scope);
+    bool rereg = false;       // a registration form of 4..7 asks for the whole registry to be registered again after every operation
+    auto registerAll = [&]() {
     for (auto &r : c.at(0).l) {
         QString name = QString::fromUtf8(r.at(0).asBytes());
-        int kind = int(r.at(1).asInt()), id = int(r.at(2).asInt()) % 6, form = int(r.at(4).asInt());
+        int kind = int(r.at(1).asInt()), id = int(r.at(2).asInt()) % 6, form = int(r.at(4).asInt()) % 4;
+        if (r.at(4).asInt() >= 4) rereg = true;
         bool ra = r.at(3).asInt() != 0;
         if (kind == 1) { h->registerMethod(name, &recv, SLOT(nosuch(QHttpEngine::Socket*)), ra); continue; }
         if (kind == 2) { h->registerMethod(name, &recv, SLOT(wrong(int)), ra); continue; }
+        if (kind == 3) { h->registerMethod(name, &recv, SLOT(wrongsock(QTcpSocket*)), ra); continue; }
+        if (kind == 4) { h->registerMethod(name, &recv, SLOT(twoargs(QHttpEngine::Socket*,int)), ra); continue; }
         SlotReceiver *rp = &recv;
         switch (form) {
         case 0: {
@@ -51,10 +58,13 @@ static Val runSlot(const Val &c, bool multi)
         default: h->registerMethod(name, &recv, [rp, id](Socket *s) { rp->hit(id, s); }, ra); break;
         }
     }
+    };
+    registerAll();
     Server *server = new Server(&scope);
     server->setHandler(h);
     Val out = Val::List();
-    if (!multi) runConnectionOn(server, log, c.at(1));
+    if (!multi && rereg) runConnectionOnEach(server, log, c.at(1), registerAll);
+    else if (!multi) runConnectionOn(server, log, c.at(1));
     else for (auto &ops : c.at(1).l) {           // several connections, one after the other, through the one handler
         log = Val::List();
         runConnectionOn(server, log, ops);
